@@ -1883,9 +1883,17 @@ vbi_export_file			(vbi_export *		e,
 
 	if (-1 == xclose (e->_handle.fd)) {
 		if (success) {
+			struct stat st;
+
 			saved_errno = errno;
 			vbi_export_write_error (e);
 			success = FALSE;
+
+			/* The data may not have reached the file. As
+			   documented, do not leave the file behind. */
+			if (0 == stat (name, &st)
+			    && S_ISREG (st.st_mode))
+				unlink (name);
 		}
 	}
 
